@@ -51,7 +51,15 @@ impl Nonce {
             .then_some(())
             .ok_or_else(|| StunError::new(StunErrorType::InvalidParam, "Not nonce cookie"))?;
 
-        let flags = &self.as_str()[NONCE_COOKIE_HEADER.len()..NONCE_COOKIE_HEADER.len() + 4];
+        let flags = self
+            .as_str()
+            .get(NONCE_COOKIE_HEADER.len()..NONCE_COOKIE_HEADER.len() + 4)
+            .ok_or_else(|| {
+                StunError::new(
+                    StunErrorType::InvalidParam,
+                    "Security features are not base64 characters",
+                )
+            })?;
         let mut bytes = [0x00; 4];
         let size = BASE64_STANDARD
             .decode_slice(flags, &mut bytes)
